@@ -109,7 +109,10 @@ def _job(args):
         for i in range(n):
             if rng.random() < 0.06:
                 # no tag pair: must be rejected with a parsing error
-                body = "[A] --> [B]\n" + rng.choice(["", "@startuml\n", "@enduml\n", "@enduml\n[A] -> [B]\n@startuml\n", "@startuml@enduml"])
+                body = rng.choice(["[A] --> [B]\n" + t for t in ("", "@startuml\n", "@enduml\n", "@enduml\n[A] -> [B]\n@startuml\n")] +
+                                  ["@startuml\n[A] --> [B]\n", "@startuml\n[A] --> [B]\ncomponent [C]\nsome text after\n", "text\n@startuml\n[A] -> [B]",      # start tag, no end tag
+                                   "[A] --> [B]\n@enduml\ntext\n", "@enduml\n@startuml\n[A] --> [B]\n",                                                  # end tag before / without start tag
+                                   "@start uml\n[A] --> [B]\n@end uml\n", "startuml\n[A] --> [B]\nenduml\n"])                                             # misspelt tags
                 r = parse_impl(body, d, i)
                 out["n"] += 1
                 if r != ("ERR", "PumlParsingError"):
